@@ -595,6 +595,10 @@ func C14Race(args []string) int {
 		default:
 		}
 	}
+	if msg := c14ParseRace(); msg != "" {
+		fmt.Println("DATA RACE (observed):", msg)
+		return 1
+	}
 	fmt.Println("race pass done")
 	return 0
 }
@@ -610,7 +614,15 @@ var c14BroadMenu = []string{
 }
 
 func C14(c *run.Check) {
+	if os.Getenv("XV_C14_ONLY") == "reads" { // diagnostics: the concurrent-read scenarios alone
+		c14Parse(c)
+		c.Exhaustive = false
+		return
+	}
 	c14Library(c)
+	if c.Violations() == 0 {
+		c14Parse(c)
+	}
 	if c.Violations() == 0 {
 		// static half of the read-only argument: package-level variables of the library
 		repo := "/repo"
@@ -663,13 +675,13 @@ func C14(c *run.Check) {
 				c.Violation(map[string]string{"kind": "race-detector", "output": msg}, "auxiliary free-running -race pass reported a data race:\n"+msg)
 			}
 			if c.Violations() == 0 {
-				c.Set("race_pass", "30 rounds x all scenarios free-running under the Go race detector: clean")
+				c.Set("race_pass", "30 rounds x all scenarios, 6 rounds of the broad menu and 10 rounds of concurrent document reads (6-9 documents at once) free-running under the Go race detector: clean")
 			}
 		} else {
 			c.Set("race_pass", "skipped (no -race binary)")
 		}
 	}
-	c.Rule = "library: 13 scenarios of 2-3 threads x 1-2 real xsel.Exec calls sharing one cursor tree (through proxy cursors whose every accessor is a scheduling point), the compiled expressions, caller-owned binding maps and a caller-owned node-set variable with spare capacity; ALL schedules with at most 2 (thorough: 3) preemptions enumerated depth-first; in every execution each call must return its serial result, the shared slices must be unchanged at every scheduling point and deep fingerprints of tree, expressions and maps unchanged at the end; plus a read-only audit (full fingerprint of everything shared at EVERY scheduling point of two schedules per scenario + static scan for writes to package-level variables) that extends the verdict to all interleavings by independence of read-only steps (library_reduction). CLI: the real main() under the same scheduler, see cli_* keys. Auxiliary: the same bodies free-running under the race detector"
+	c.Rule = "library: 13 scenarios of 2-3 threads x 1-2 real xsel.Exec calls sharing one cursor tree (through proxy cursors whose every accessor is a scheduling point), the compiled expressions, caller-owned binding maps and a caller-owned node-set variable with spare capacity; ALL schedules with at most 2 (thorough: 3) preemptions enumerated depth-first; in every execution each call must return its serial result, the shared slices must be unchanged at every scheduling point and deep fingerprints of tree, expressions and maps unchanged at the end; plus a read-only audit (full fingerprint of everything shared at EVERY scheduling point of two schedules per scenario + static scan for writes to package-level variables) that extends the verdict to all interleavings by independence of read-only steps (library_reduction). Worker bodies: 7 scenarios of 2-3 documents (XML with attributes and namespace declarations, HTML, JSON) read at the same time through the library's parsers with a scheduling point at every Pull and every 12-byte Read, ALL schedules with at most 3 (thorough: 4) preemptions, every tree built compared node by node with the tree built when the document is read alone (read_* keys). CLI: the real main() under the same scheduler, see cli_* keys. Auxiliary: the same bodies free-running under the race detector"
 	c.Assume("scheduling points are tree accesses, user-function calls and (CLI) goroutine/channel/WaitGroup/print operations; interleavings below that granularity are covered only by the auxiliary race-detector pass")
 }
 
@@ -681,6 +693,9 @@ func init() {
 			Kind string `json:"kind"`
 		}
 		json.Unmarshal(raw, &probe)
+		if probe.Kind == "parse" {
+			return c14ParseReplayRun(raw)
+		}
 		if probe.Kind == "cli" {
 			var cr c14cliReplay
 			json.Unmarshal(raw, &cr)
